@@ -263,6 +263,56 @@ theorem old_relative_agrees_on_tested_shapes (source path : PPath) (d : Str) (hd
 
 /-! ### download -/
 
+/-! ### `make_directory` and `..` (finding F20, repaired in /repo 21d06ff) -/
+
+/-- **fact_make_directory_stops_at_dotdot**: as regenerated from `client.py`, the loop of `make_directory` stops at a
+    `..` component (`path.name != ".."`) -/
+theorem fact_make_directory_stops_at_dotdot : Generated.makeDirectoryStopsAtDotDot = true := by decide
+
+/-- **make_directory_never_creates_dotdot**: for EVERY server state and EVERY path, no directory that `make_directory`
+    decides to create ends in `..` -/
+theorem make_directory_never_creates_dotdot (r : Remote) (root : Nat) : ∀ (rev : List Str) (need : List PPath),
+    needCreateNow r root rev = .ok need → ∀ p ∈ need, p.parts.getLast? ≠ some dotdot := by
+  have key : ∀ (rev : List Str) (need : List PPath),
+      needCreateSkip r root rev = .ok need → ∀ p ∈ need, p.parts.getLast? ≠ some dotdot := by
+    intro rev
+    induction rev with
+    | nil =>
+      intro need h
+      unfold needCreateSkip at h
+      injection h with h; subst h
+      intro p hp; cases hp
+    | cons x up ih =>
+      intro need h
+      unfold needCreateSkip at h
+      split at h
+      · injection h with h; subst h; intro p hp; cases hp
+      · rename_i hx
+        split at h
+        · cases h
+        · injection h with h; subst h; intro p hp; cases hp
+        · split at h
+          · cases h
+          · rename_i more hmore
+            injection h with h; subst h
+            intro p hp
+            rcases List.mem_cons.mp hp with hp | hp
+            · subst hp
+              simp only [List.reverse_cons, List.getLast?_append, List.getLast?_singleton, Option.some_or]
+              intro hc; injection hc with hc; exact hx hc
+            · exact ih more hmore p hp
+  intro rev need h
+  unfold needCreateNow at h
+  rw [fact_make_directory_stops_at_dotdot] at h
+  exact key rev need h
+
+/-- **old_make_directory_asked_for_dotdot** (what F20 was): on a server without MLST, `make_directory("../up")` took
+    `..` for missing (the LIST fallback of `stat` looks for an entry NAMED `..`) and put it on its list, so `MKD ..` was
+    sent and refused; with the extra test only `../up` is created -/
+theorem old_make_directory_asked_for_dotdot :
+    needCreate exRemote 0 [n "up", dotdot] = .ok [⟨0, [dotdot, n "up"]⟩, ⟨0, [dotdot]⟩] ∧
+    needCreateSkip exRemote 0 [n "up", dotdot] = .ok [⟨0, [dotdot, n "up"]⟩] := by decide
+
 /-- **download_spec** (full strength).  Whenever `download` returns normally, the local tree is the graft of
     the remote subtree at the documented destination: same structure, same contents, empty directories
     included, missing local parents made, nothing else touched. Every destination shape, `write_into` on/off,
